@@ -127,6 +127,183 @@ def oracleHold (k : KState) (hist : List KEv) (items : List TItem) : Option Stri
                   else none
                 | _, _ => none
 
+/-- an operation on virtual key 1 as the statement sees it -/
+inductive HOp
+  | act (d : Nat)     -- hold-for-duration activation with stated time `d`
+  | rel               -- an explicit release (release-vkey on the key, a direct release call, release-key of its code)
+  deriving Repr, DecidableEq
+
+/-- family 2c: hold-for-duration on virtual key 1 mixed with EXPLICIT releases of that key
+(`release-vkey` from a physical key, a direct release call, `release-key` of its key code), every
+operation at least 8 ticks after the previous one.  Written from the statement: "hold-for-duration
+keeps the key pressed until the stated time has passed since its most recent activation", "press
+holds its action until a release".  So at every instant the most recent operation decides: after a
+release the key is up; after an activation at `ta` with stated time `D` the key is down from
+`ta + 6` (queueing slack) to `ta + D` and up again from `ta + D + 6` on.  Instants inside the
+slack windows are not judged.  A failure whose activation came after an explicit release but inside
+the countdown of an earlier activation is tagged `rearmed-after-release` (recorded finding). -/
+def oracleHoldRelease (k : KState) (hist : List KEv) (items : List TItem) : Option String :=
+  match marker k 1 with
+  | none => none
+  | some m =>
+    let layer0 : List (Coord × Action) := k.layout.cfg.layers[0]?.getD []
+    let opOfKey (c : Coord) : Option (Option HOp) :=   -- none = the key is not understood
+      if c.1 != 0 then none else
+      match layer0.find? (·.1 == c) with
+      | some (_, .custom id) => match k.customs[id]? with
+        | some [.fakeKeyHold (1, 1) d] => some (some (.act d))
+        | some [.fakeKey (1, 1) .release] => some (some .rel)
+        | _ => none
+      | some (_, .releaseState (.keyCode kc)) => if kc == m then some (some .rel) else none
+      | some (_, .keyCode kc) => if kc == m then none else some none   -- a plain key: no operation
+      | _ => none
+    -- operations with their times; `none` when something is not understood
+    let rec ops : List KEv → Nat → Option (List (Nat × HOp))
+      | [], _ => some []
+      | .tick t :: rest, vt => ops rest (vt + t)
+      | .press c :: rest, vt =>
+        match opOfKey c with
+        | none => none
+        | some o => (ops rest vt).map fun l => match o with | some op => (vt, op) :: l | none => l
+      | .release c :: rest, vt =>
+        match opOfKey c with
+        | none => none
+        | some _ => ops rest vt
+      | .fake a c :: rest, vt =>
+        if c == (1, 1) then (if a == .release then (ops rest vt).map ((vt, .rel) :: ·) else none)
+        else none
+      | _ :: _, _ => none
+    match ops hist 0 with
+    | none => none
+    | some os =>
+      let hasRel := os.any fun o => o.2 == .rel
+      let hasAct := os.any fun o => match o.2 with | .act _ => true | .rel => false
+      -- histories without an explicit release belong to family 2
+      if !hasRel || !hasAct then none else
+      let spaced := (os.zip (os.drop 1)).all fun (a, b) => a.1 + 8 ≤ b.1
+      let total := hist.foldl (fun n e => match e with | .tick t => n + t | _ => n) 0
+      let dmax := os.foldl (fun mx o => match o.2 with | .act d => max mx d | .rel => mx) 0
+      let longTail := match hist.getLast?, os.getLast? with
+        | some (.tick t), some (tl, _) => t ≥ dmax + 10 && total ≥ tl + dmax + 10
+        | _, _ => false
+      if !spaced || !longTail then none else
+      -- the operation that decides at instant `vt`, and what came before it
+      let rec judge : Nat → Nat → Option String   -- fuel, vt
+        | 0, _ => none
+        | f + 1, vt =>
+          if vt > total then none else
+          let before := os.filter (·.1 ≤ vt)
+          let verdict : Option String :=
+            match before.getLast? with
+            | none => none
+            | some (tl, op) =>
+              let isDown := (downAt items vt).contains m
+              match op with
+              | .rel =>
+                if vt ≥ tl + 6 && isDown then some s!"hold-release: virtual key 1 still down at {vt}, after the explicit release at {tl}" else none
+              | .act d =>
+                if vt ≥ tl + 6 && vt ≤ tl + d && !isDown then
+                  -- was this activation issued after an explicit release, inside an earlier countdown?
+                  let prev := before.dropLast
+                  let afterRel := match prev.getLast? with | some (_, .rel) => true | _ => false
+                  let insideOld := prev.any fun o => match o.2 with | .act d0 => tl ≤ o.1 + d0 + 2 | .rel => false
+                  -- ... and the key was not pressed at all after it (anything else - pressed late,
+                  -- released early - is not the recorded finding)
+                  let neverDown := !(items.any fun it => it.vt ≥ tl && it.vt ≤ tl + d && it.evs.contains s!"d{m}")
+                  let tag := if afterRel && insideOld && neverDown then "rearmed-after-release" else "not-held"
+                  some s!"hold-release {tag}: virtual key 1 is up at {vt}, but hold-for-duration {d} was activated at {tl} (its most recent operation); operations {os.map fun o => (o.1, match o.2 with | .act d => s!"hold {d}" | .rel => "release")}"
+                else if vt ≥ tl + d + 6 && isDown then
+                  some s!"hold-release: virtual key 1 still down at {vt}, activated at {tl} for {d}"
+                else none
+          match verdict with
+          | some e => some e
+          | none => judge f (vt + 1)
+      judge (total + 1) 0
+
+/-- hold count and number of up→down transitions after one operation -/
+def applyOpCount (st : Nat × Nat) : FkAction → Nat × Nat
+  | .press => (st.1 + 1, st.2 + (if st.1 == 0 then 1 else 0))
+  | .release => (0, st.2)
+  | .tap => (0, st.2 + (if st.1 == 0 then 1 else 0))
+  | .toggle => if st.1 > 0 then (0, st.2) else (1, st.2 + 1)
+
+/-- family 2d: a MACRO operating virtual key 1 (`(macro (on-press-fakekey v1 ..) D ..)`) while other
+keys operate virtual key 0 or a mouse button through custom actions of their own.  From the
+statement ("press holds its action until a release, tap does both, toggle alternates ..., the same
+effect whether triggered from a key, a macro, ..."): the operations written in the macro take effect
+in the order written, whatever else is processed in the same tick, so after a long quiet tail the
+output of each virtual key is down iff its operations leave it held, and it went down exactly as
+often as an operation found it up.  Judged when at most one macro key is pressed, once. -/
+def oracleMacro (k : KState) (hist : List KEv) (items : List TItem) : Option String :=
+  match marker k 0, marker k 1 with
+  | some m0, some m1 =>
+    let layer0 : List (Coord × Action) := k.layout.cfg.layers[0]?.getD []
+    -- the operations on v1 written in a macro (delays and nothing else in between)
+    let macroOps (evs : List SeqEv) : Option (List FkAction) :=
+      evs.foldl (fun acc e => match acc, e with
+        | none, _ => none
+        | some l, .custom id => match k.customs[id]? with
+          | some [.fakeKey (1, 1) a] => some (l ++ [a])
+          | _ => none
+        | some l, .delay _ => some l
+        | some l, .complete => some l
+        | some l, .noOp => some l
+        | some _, _ => none) (some [])
+    let macroOf (c : Coord) : Option (List FkAction) :=
+      match layer0.find? (·.1 == c) with
+      | some (_, .sequence evs) => match macroOps evs with
+        | some [] => none
+        | r => r
+      | _ => none
+    -- what a non-macro key does to v0: (on press, on release); none = not understood
+    let keyOps (c : Coord) : Option (Option FkAction × Option FkAction) :=
+      match layer0.find? (·.1 == c) with
+      | some (_, .custom id) => match k.customs[id]? with
+        | some [.fakeKey (1, 0) a] => some (some a, none)
+        | some [.fakeKeyOnRelease (1, 0) a] => some (none, some a)
+        | some [.mouse _] => some (none, none)
+        | _ => none
+      | some (_, .keyCode kc) => if kc == m0 || kc == m1 then none else some (none, none)
+      | _ => none
+    let macroPresses := hist.filter fun e => match e with | .press c => (macroOf c).isSome | _ => false
+    if macroPresses.length != 1 then none else
+    let longTail := match hist.getLast? with | some (.tick t) => t ≥ 60 | _ => false
+    if !longTail then none else
+    -- replay: v1 from the macro's list, v0 from the key events in order
+    let rec go : List KEv → (Nat × Nat) → (Nat × Nat) → Option ((Nat × Nat) × (Nat × Nat))
+      | [], s0, s1 => some (s0, s1)
+      | .tick _ :: rest, s0, s1 => go rest s0 s1
+      | .press c :: rest, s0, s1 =>
+        if c.1 != 0 then none else
+        match macroOf c with
+        | some ops => go rest s0 (ops.foldl applyOpCount s1)
+        | none => match keyOps c with
+          | some (some a, _) => go rest (applyOpCount s0 a) s1
+          | some (none, _) => go rest s0 s1
+          | none => none
+      | .release c :: rest, s0, s1 =>
+        if c.1 != 0 then none else
+        match macroOf c with
+        | some _ => go rest s0 s1
+        | none => match keyOps c with
+          | some (_, some a) => go rest (applyOpCount s0 a) s1
+          | some (_, none) => go rest s0 s1
+          | none => none
+      | _ :: _, _, _ => none
+    match go hist (0, 0) (0, 0) with
+    | none => none
+    | some (s0, s1) =>
+      let downsOf (m : Nat) : Nat := (items.flatMap fun it => it.evs.filter (· == s!"d{m}")).length
+      let final := downAt items 1000000
+      let chk (name : String) (m : Nat) (st : Nat × Nat) : Option String :=
+        if final.contains m != decide (st.1 > 0) then
+          some s!"macro-vkey: virtual key {name} should end {if st.1 > 0 then "held" else "up"} but its output is {if final.contains m then "down" else "up"}"
+        else if downsOf m != st.2 then
+          some s!"macro-vkey: the output of virtual key {name} went down {downsOf m} time(s), its operations press it {st.2} time(s)"
+        else none
+      (chk "1 (operated by the macro)" m1 s1).orElse fun _ => chk "0 (operated by the other key)" m0 s0
+  | _, _ => none
+
 /-- family 3: on-idle tap of virtual key 2 under the processing loop -/
 def oracleIdle (k : KState) (hist : List KEv) (items : List TItem) : Option String :=
   match marker k 2 with
@@ -175,7 +352,9 @@ def runOracle (line : String) : String × String :=
       let loopPart := (impl.splitOn " || STEP ").headD impl
       let items := parseTrace ((loopPart.splitOn " ").filter (· ≠ "")) []
       let r1 := if settled c.hist then oracleSettled k c.hist items else none
-      let r := r1.orElse fun _ => (oracleHold k c.hist items).orElse fun _ => oracleIdle k c.hist items
+      let r := r1.orElse fun _ => (oracleHold k c.hist items).orElse fun _ =>
+        (oracleHoldRelease k c.hist items).orElse fun _ => (oracleMacro k c.hist items).orElse fun _ =>
+        oracleIdle k c.hist items
       match r with
       | some e => (s!"fail {e}", "-")
       | none => ("ok", "-")
